@@ -2,7 +2,8 @@
 """Regenerates MANIFEST.json from the table below (kept in one place so it always validates)."""
 import json, os
 V = os.path.dirname(os.path.abspath(__file__))
-claimed = json.load(open(os.path.join(V, "claims.json")))
+import glob
+claimed = {os.path.basename(f)[:-5]: json.load(open(f)) for f in glob.glob(os.path.join(V, "claims", "C*.json"))}
 props = [json.loads(l)["id"] for l in open(os.path.join(V, "properties.jsonl"))]
 checks = []
 for pid in props:
